@@ -46,6 +46,8 @@ def Err.name : Err → String
 
 abbrev Res (α : Type) := Except Err α
 
+deriving instance DecidableEq for Except
+
 def offsetOldest : Int := -2
 def offsetNewest : Int := -1
 def offsetInvalid : Int := -3
